@@ -23,4 +23,5 @@ Definition dispatch (prop : string) (c : sexp) : sexp :=
   else if String.eqb prop "C02" then G14.run_roundtrip c
   else if String.eqb prop "C16" then G16.run c
   else if String.eqb prop "C16ref" then G16.run_ref c
+  else if String.eqb prop "C12step" then G12.run_step c
   else A "unknown-property".
